@@ -21,6 +21,10 @@ var (
 	zzPrvPass = []byte("prv-pass")
 	zzSeedA   = []byte{0x2a, 0x64, 0xdf, 0x08, 0x5e, 0xef, 0xed, 0xd8, 0xbf, 0xdb, 0xb3, 0x31, 0x76, 0xb5, 0xba, 0x2e,
 		0x62, 0xe8, 0xbe, 0x8b, 0x56, 0xc8, 0x83, 0x77, 0x95, 0x59, 0x8b, 0xb6, 0xc4, 0x40, 0xc0, 0x64}
+	// zzSeedLegacy: a seed whose m/84'/0' private key has a leading zero
+	// byte (about 1 seed in 256), where btcsuite's legacy hardened
+	// derivation differs from BIP32 one level further down
+	zzSeedLegacy = []byte{0, 0, 0, 56, 0, 0, 0, 0, 0, 0, 0, 0, 0, 0, 0, 0, 0, 0, 0, 0, 0, 0, 0, 0, 0, 0, 0, 0, 0, 0, 0, 1}
 	zzFastScrypt = &ScryptOptions{N: 16, R: 8, P: 1}
 )
 
